@@ -36,6 +36,10 @@ class C12(Prop):
             for _ in range(n):
                 ops = sg.rand_history(rng, rng.randint(6, 24), behavior=True)
                 out.append(sg.mk_case("behavior", fl, ops, "random", init=rng.randint(-3, 50), rng=rng))
+        for fl in sg.BEHAVIOR_FLAVORS:
+            for _ in range(n // 4):
+                ops = sg.rand_history(rng, rng.randint(40, 90), behavior=True, maxsub=12)
+                out.append(sg.mk_case("behavior", fl, ops, "wide", init=rng.randint(-3, 50), rng=rng))
         # the two-producer interleaving store1, store2, broadcast2, broadcast1 of C12_race_counterexample,
         # replayed on the real BehaviorSubject<_, SubjectThreads> through hook H2
         from ..case import Case
